@@ -37,9 +37,17 @@ func verifValidCard() vcard.Card {
 
 type verifBody struct {
 	empty bool
+	fails bool
 }
 
+// verifBodyUnreadable: the request body fails on its first Read (a broken
+// chunk header, a body closed by middleware).
+var verifBodyUnreadable bool
+
 func (b *verifBody) Read(p []byte) (int, error) {
+	if b.fails {
+		return 0, io.ErrUnexpectedEOF
+	}
 	if b.empty {
 		return 0, io.EOF
 	}
@@ -57,6 +65,10 @@ const verifValidVCard = "BEGIN:VCARD\r\nVERSION:3.0\r\nFN:x\r\nEND:VCARD\r\n"
 func verifRequest(method, path string, hdr http.Header, xmlBody interface{}, xmlBroken bool, rawBody string, emptyBody bool) *http.Request {
 	r := &http.Request{Method: method, URL: &url.URL{Path: path}, Header: hdr}
 	internal.VerifRequestBody, internal.VerifRequestBodyErr = xmlBody, xmlBroken
+	if verifBodyUnreadable {
+		r.Body = &verifBody{fails: true}
+		return r
+	}
 	if vrt.Symbolic() {
 		r.Body = &verifBody{empty: emptyBody}
 		return r
@@ -234,6 +246,8 @@ func symReportBody() (interface{}, bool) {
 // VerifH_C13_Handler: as the CalDAV harness, for the CardDAV handler.
 func VerifH_C13_Handler() {
 	internal.VerifResetWire()
+	verifBodyUnreadable = false
+	defer func() { verifBodyUnreadable = false }()
 	verifDecoderRefuses, verifForeignProp = false, false
 	verifEnumForm = 0 // attribute texts opaque here; their bytes are the subject of VerifH_C13_Enumerations
 	internal.VerifCopyHook = verifCopy
@@ -380,7 +394,16 @@ func VerifH_C13_Handler() {
 		symHeaderValue(hdr, "If-Match", []string{"*", "\"e\""})
 		symHeaderValue(hdr, "If-None-Match", []string{"*"})
 	case "MKCOL":
-		switch vrt.Choose("mkcol-body", 3) {
+		switch vrt.Choose("mkcol-body", 4) {
+		case 3:
+			// the body cannot be read at all: the request cannot be
+			// interpreted, nothing may be created
+			hdr.Set("Content-Type", "text/xml")
+			verifBodyUnreadable = true
+			xmlBroken = true
+			if level == 3 {
+				malformed = true
+			}
 		case 0:
 			emptyBody = true
 		case 1:
